@@ -83,3 +83,17 @@ contract('nfc.clf:ContactlessFrontend.exchange', 'C13',
               send_data=Bytes(0, None, mutable=True), timeout=Const(0.1)),
          name='C13/clf.exchange', raises=DOC,
          ensures=[('post.lock_released', 'not self.lock.locked()')])
+
+# InDataExchange is the one PN53x command whose status octet is a bit field (NAD, MI, 6-bit error code): the
+# error raised carries the error code alone, so that the drivers' "errno == 1 is a timeout" classification holds
+# whatever the other bits are
+contract('nfc.clf.pn53x:Chipset.command', 'C13', dict(self=Any(), cmd_code=Any(), cmd_data=Any(), timeout=Any()),
+         name='C13/pn53x.command.answered', assumed=True,
+         note='the case of C13/pn53x.command in which the chip answers with a payload (or the host link fails)',
+         raises={'IOError': []}, returns=Bytes(1, 264, mutable=True))
+contract(X + 'Chipset.in_data_exchange', 'C13',
+         dict(self=CHIP(), data=Bytes(0, 262, mutable=True), timeout=Const(0.1), more=Bool()),
+         name='C13/pn53x.in_data_exchange', use=['C13/pn53x.command.answered'],
+         ensures=[('O-status.ok', 'call_ret("C13/pn53x.command.answered")[0] % 64 == 0')],
+         raises={'IOError': [], CE: ['exc.errno == call_ret("C13/pn53x.command.answered")[0] % 64',
+                                     'exc.errno != 0']})
